@@ -2,6 +2,7 @@
 
 from vf import evalhelp as H
 from vf import evaluators as E
+from vf import sched
 from vf.gen import expr as G
 from vf.monitors import OperatorMonitor, capture, describe
 from vf.ref import logic
@@ -47,7 +48,11 @@ async def check_expression(ctx, case, async_budget=12):
         ctx.count("async_evaluations")
         expected = logic.OUTCOME[logic.ref_eval(ast, asg)]
         world = H.world_for(ast, asg, hints_sync=rng.random() < 0.3)
-        aout = await H.async_requirement(s if rng.random() < 0.7 else tree, world)
+        # half of them with every harness awaitable parked and released in a random order (the semantics must not depend on it)
+        scheduler = sched.Sched(sched.RandomChooser(rng)) if rng.random() < 0.5 else None
+        if scheduler is not None:
+            ctx.count("async_evaluations_under_random_completion_order")
+        aout = await H.async_requirement(s if rng.random() < 0.7 else tree, world, scheduler)
         if aout[0] != "ok":
             ctx.violation(f"evaluation-raises-{type(aout[1]).__name__}", f"requirement_constraint_evaluation({s!r}) under {asg} {describe(aout)[:300]}", case=dict(case, assignments=[asg]))
             continue
